@@ -21,7 +21,7 @@ def run(ctx, prop):
         env["CARGO_TARGET_DIR"] = os.path.join(tmp, "target")
         r = R.sh(["cargo", "+nightly", "test", "--doc", "--offline"], cwd=work, env=env)
         out = r.stdout
-        tests = re.findall(r"test (src/lib\.rs - \S+ \(line \d+\)(?: - compile fail)?) \.\.\. (\w+)", out)
+        tests = re.findall(r"test (src/lib\.rs - \S+ \(line \d+\)(?: - compile fail| - compile)?) \.\.\. (\w+)", out)
         n_cf = sum(1 for t, v in tests if "compile fail" in t)
         n_tw = len(tests) - n_cf
         rule = "%s/witness" % prop
